@@ -30,6 +30,14 @@ CLAIMED = {
          "Exploration: generated LC lists and LC query sets over committed polynomials; open_combinations/check_combinations must accept the true LC values and reject a changed claimed value, verifier-side coefficient, verifier-side constant or sum-preserving change of transmitted evaluations; degree-bounded polynomials: [1*p_b] verifies and still enforces the bound, every bound-dropping combination is refused by both entry points.",
          "LC values are computed from ark-poly evaluations; coefficient perturbations are applied to polynomials that do not vanish at the queried point so the perturbed statement is false.",
          "DESIGN.md §4 C06"),
+ "C07": ("property-based testing (proptest): structural identities between commitment, returned randomness and public hiding generators; seed-pair metamorphic relations; sponge-replayed random_v",
+         "Exploration: for hiding scenarios of KZG10, Marlin, Sonic, PST13, IPA and Hyrax the harness recomputes the non-hiding commitment naively from the public key and checks that the difference to the library's commitment is exactly the blinding term formed from the returned state and the published hiding generators, with the required number of non-zero distinct coefficients per part; equal/different RNG seeds must reproduce/change commitments, states and proofs; repeated commitments are pairwise distinct; hiding without RNG is refused; non-hiding commitments are key-defined and carry no randomness; random_v equals the challenge-weighted blinding evaluation (challenges replayed independently).",
+         "Randomness quality is checked structurally, not statistically. Trusted: ark-ec group arithmetic.",
+         "DESIGN.md §4 C07"),
+ "C08": ("property-based testing (proptest): naive multi-scalar-sum oracle over published key elements, additivity/metamorphic relations, reference Merkle root recomputation",
+         "Exploration: non-hiding commitments of every group-based scheme are compared part by part with plain sums of key elements (no MSM, no leading-zero skipping, explicit shift windows); additivity of commitments and of commitment randomness (through the schemes' own AddAssign) is checked against the naive commitment of a*p+b*q; hash-based commitments are compared with a by-hand Merkle root over the harness's own row-encoded matrix, including metadata, prover state, determinism and sensitivity.",
+         "Trusted: ark-ec group arithmetic, the public LinearEncode::encode used for rows (its linearity and length are checked in C13), SHA-256/Blake2s implementations.",
+         "DESIGN.md §4 C08"),
 }
 
 NOT_YET = "check not built yet in this round (planned, see DESIGN.md §4)"
